@@ -88,15 +88,14 @@ def mutate_rule(rnd, rule, pd):
         f.id = pd.fields[rnd.randrange(len(pd.fields))].id
     elif kind == 'id-related':
         # another REGISTERED identifier whose text contains the packet field's identifier or is contained in it ('CoAP:Token' / 'CoAP:Token
-        # Length', 'IPv4:Flags' ...), or the identifier itself followed by a space: different identifiers, the descriptor no longer applies
+        # Length', 'IPv4:Flags' ...), else the identifier of another field of the packet: different identifiers, the descriptor no longer applies
         from schc_util import FID as _FID
         pid_ = pd.fields[min(i, len(pd.fields) - 1)].id
         ps_ = str(getattr(pid_, 'value', pid_))
         rel_ = [x for x in _FID if x != ps_ and (ps_ in x or x in ps_)]
-        if rel_ and rnd.random() < 0.8:
-            f.id = rnd.choice(rel_)
-        else:
-            f.id = rnd.choice([ps_ + ' ', ' ' + ps_, ps_[:-1], ps_ + ps_])
+        # (registered identifiers only: the compute functions of the library look for protocol names inside identifiers, and the model
+        # knows the registered ones)
+        f.id = rnd.choice(rel_) if rel_ else pd.fields[rnd.randrange(len(pd.fields))].id
     elif kind == 'len':
         f.length = rnd.choice([0, f.length + 1, max(0, f.length - 1), f.length + 8])
     elif kind == 'mapzeros' and isinstance(f.target_value, MatchMapping):
